@@ -3,7 +3,7 @@
 //! or `Environment::None`; closures as a slice of `&mut dyn FnMut`).  No allocator at all.
 //!
 //! Plan tokens (arguments): bin=<path> arg=<a> (0..2) envnone=1 cwd=<dir> uid= gid= pg=
-//!   in=|out=|err=<inherit|null|pipe|fd:N>  pre=<code> (0..2)  wait=<wait|try|poll>,..
+//!   in=|out=|err=<inherit|null|pipe|fd:N>  pre=<code> (0..3)  wait=<wait|try|poll>,..
 //! Reporting through markers only, exactly like probe/spawnp.
 #![no_std]
 #![no_main]
@@ -83,7 +83,7 @@ pub fn main() -> i32 {
     let mut cwd: Option<&'static UnixStr> = None;
     let (mut uid, mut gid, mut pg) = (None, None, None);
     let (mut sin, mut sout, mut serr) = (None, None, None);
-    let mut pres = [0i32; 2];
+    let mut pres = [0i32; 3];
     let mut npre = 0;
     let mut envnone = false;
     let mut ops: [&[u8]; 8] = [b""; 8];
@@ -131,10 +131,11 @@ pub fn main() -> i32 {
     }
     let bin = bin.unwrap();
     let env = if envnone { Environment::None } else { Environment::Inherit };
-    let (c1, c2) = (pres[0], pres[1]);
+    let (c1, c2, c3) = (pres[0], pres[1], pres[2]);
     let mut f1 = move || pre(1, c1);
     let mut f2 = move || pre(2, c2);
-    let mut cl2: [&mut (dyn FnMut() -> tiny_std::Result<()> + Send + Sync); 2] = [&mut f1, &mut f2];
+    let mut f3 = move || pre(3, c3);
+    let mut cl2: [&mut (dyn FnMut() -> tiny_std::Result<()> + Send + Sync); 3] = [&mut f1, &mut f2, &mut f3];
     let closures = &mut cl2[..npre];
     let me = rusl::process::get_pid();
     let mut m = Buf { b: [0; 256], n: 0 };
